@@ -42,7 +42,7 @@ func main() {
 		os.Exit(2)
 	}
 	bad := false
-	nRange, nSlice, nDial := 0, 0, 0
+	nRange, nSlice, nDial, nLock := 0, 0, 0, 0
 	for _, p := range pkgs {
 		if strings.HasSuffix(p.PkgPath, "/verifrt") {
 			continue
@@ -138,6 +138,19 @@ func main() {
 				}
 				return true
 			}, nil)
+			// lock boundaries of the shared caches in fclient become yield points
+			if strings.HasSuffix(p.PkgPath, "/fclient") && !strings.HasSuffix(fn, "verif_overlay.go") {
+				for _, d := range f.Decls {
+					fd, ok := d.(*ast.FuncDecl)
+					if !ok || fd.Body == nil {
+						continue
+					}
+					if k := instrumentMutexes(p.Fset, info, fd); k > 0 {
+						changed = true
+						nLock += k
+					}
+				}
+			}
 			if !changed {
 				continue
 			}
@@ -153,8 +166,94 @@ func main() {
 			}
 		}
 	}
-	fmt.Printf("instrumented: %d map ranges, %d set slices, %d dials\n", nRange, nSlice, nDial)
+	fmt.Printf("instrumented: %d map ranges, %d set slices, %d dials, %d lock boundaries\n", nRange, nSlice, nDial, nLock)
 	if bad {
 		os.Exit(2)
 	}
+}
+
+// mutexCall reports whether call is x.Lock / RLock / Unlock / RUnlock on a
+// sync.Mutex or sync.RWMutex, and which.
+func mutexCall(info *types.Info, call *ast.CallExpr) (string, bool) {
+	sel, ok := call.Fun.(*ast.SelectorExpr)
+	if !ok {
+		return "", false
+	}
+	switch sel.Sel.Name {
+	case "Lock", "RLock", "Unlock", "RUnlock":
+	default:
+		return "", false
+	}
+	s, ok := info.Selections[sel]
+	if !ok || s.Kind() != types.MethodVal {
+		return "", false
+	}
+	fn, ok := s.Obj().(*types.Func)
+	if !ok || fn.Pkg() == nil || fn.Pkg().Path() != "sync" {
+		return "", false
+	}
+	return sel.Sel.Name, true
+}
+
+func rtCall(name string, args ...ast.Expr) *ast.ExprStmt {
+	return &ast.ExprStmt{X: &ast.CallExpr{Fun: &ast.SelectorExpr{X: ast.NewIdent("verifrt"), Sel: ast.NewIdent(name)}, Args: args}}
+}
+
+// instrumentMutexes turns the lock boundaries of one function into yield
+// points:
+//
+//	x.Lock()          ->  verifrt.Yield(site); x.Lock(); verifrt.Locked()
+//	x.Unlock()        ->  verifrt.Unlocked(); x.Unlock(); verifrt.Yield(site)
+//	defer x.Unlock()  ->  defer func() { verifrt.Unlocked(); x.Unlock(); verifrt.Yield(site) }()
+//
+// verifrt.Yield does nothing while the calling goroutine holds an
+// instrumented lock (nothing may park holding a sync.Mutex).
+func instrumentMutexes(fset *token.FileSet, info *types.Info, fd *ast.FuncDecl) int {
+	fname := fd.Name.Name
+	if fd.Recv != nil && len(fd.Recv.List) == 1 {
+		var b bytes.Buffer
+		_ = format.Node(&b, fset, fd.Recv.List[0].Type)
+		fname = "(" + b.String() + ")." + fname
+	}
+	n := 0
+	site := func(pos token.Pos, what string) ast.Expr {
+		p := fset.Position(pos)
+		base := p.Filename[strings.LastIndex(p.Filename, "/")+1:]
+		return &ast.BasicLit{Kind: token.STRING, Value: fmt.Sprintf("%q", fmt.Sprintf("%s:%d %s %s", base, p.Line, fname, what))}
+	}
+	astutil.Apply(fd.Body, func(c *astutil.Cursor) bool {
+		switch st := c.Node().(type) {
+		case *ast.ExprStmt:
+			call, ok := st.X.(*ast.CallExpr)
+			if !ok {
+				return true
+			}
+			kind, ok := mutexCall(info, call)
+			if !ok || c.Index() < 0 {
+				return true
+			}
+			if kind == "Lock" || kind == "RLock" {
+				c.InsertBefore(rtCall("Yield", site(st.Pos(), "before-"+strings.ToLower(kind))))
+				c.InsertAfter(rtCall("Locked"))
+			} else {
+				c.InsertBefore(rtCall("Unlocked"))
+				c.InsertAfter(rtCall("Yield", site(st.Pos(), "after-"+strings.ToLower(kind))))
+			}
+			n++
+			fmt.Printf("lock   %s %s\n", fset.Position(st.Pos()), kind)
+			return false
+		case *ast.DeferStmt:
+			kind, ok := mutexCall(info, st.Call)
+			if !ok || (kind != "Unlock" && kind != "RUnlock") {
+				return true
+			}
+			body := &ast.BlockStmt{List: []ast.Stmt{rtCall("Unlocked"), &ast.ExprStmt{X: st.Call}, rtCall("Yield", site(st.Pos(), "after-deferred-"+strings.ToLower(kind)))}}
+			st.Call = &ast.CallExpr{Fun: &ast.FuncLit{Type: &ast.FuncType{Params: &ast.FieldList{}}, Body: body}}
+			n++
+			fmt.Printf("lock   %s deferred %s\n", fset.Position(st.Pos()), kind)
+			return false
+		}
+		return true
+	}, nil)
+	return n
 }
